@@ -5,6 +5,7 @@ package repository
 import (
 	"context"
 
+	"github.com/restic/restic/internal/backend"
 	"github.com/restic/restic/internal/repository/pack"
 	"github.com/restic/restic/internal/restic"
 )
@@ -17,4 +18,10 @@ func VerifC02Lookup(r *Repository, bh restic.BlobHandle) []*pack.PackedBlob {
 // VerifC02SaveUnpacked exposes saveUnpacked for every file type.
 func VerifC02SaveUnpacked(ctx context.Context, r *Repository, t restic.FileType, buf []byte) (restic.ID, error) {
 	return r.saveUnpacked(ctx, t, buf)
+}
+
+// VerifC02WrapBackend puts a wrapper around the repository's current backend stack (i.e. ABOVE the
+// cache layer installed by UseCache), so the harness can observe exactly what LoadRaw receives.
+func VerifC02WrapBackend(r *Repository, w func(backend.Backend) backend.Backend) {
+	r.be = w(r.be)
 }
